@@ -242,6 +242,15 @@ func (b *Buffer) Read(packet []byte) (n int, err error) { //nolint:gocognit,cycl
 			}
 
 			b.count--
+			if b.count > 0 && !b.closed {
+				// More packets remain, but the notifications of their writes
+				// may have been coalesced into the one that woke us: pass it
+				// on so that another waiting reader is woken as well.
+				select {
+				case b.notify <- struct{}{}:
+				default:
+				}
+			}
 			b.mutex.Unlock()
 
 			if copied < count {
